@@ -242,8 +242,34 @@ func isRecv(e ast.Expr, fd *ast.FuncDecl) bool {
 // classifyTail recognises the statements that talk to the base.
 func classifyTail(stmts []ast.Stmt, sh shape) shape {
 	retOf := func(s ast.Stmt) *ast.ReturnStmt { r, _ := s.(*ast.ReturnStmt); return r }
-	// guard prefix: if <cond> { return … } with no base access
+	// prefix: guards `if <cond> { return … }` with no base access, and path translations
+	// `v[, w] := recv.ToBasePath(p)[, recv.ToBasePath(q)]` whose variables stand for the translated parameter afterwards
+	subst := map[string]string{}
 	for len(stmts) > 1 {
+		if as, ok := stmts[0].(*ast.AssignStmt); ok && as.Tok == token.DEFINE && len(as.Lhs) == len(as.Rhs) {
+			all := true
+			for _, r := range as.Rhs {
+				c, ok := r.(*ast.CallExpr)
+				if !ok || len(c.Args) != 1 {
+					all = false
+					break
+				}
+				sel, ok := c.Fun.(*ast.SelectorExpr)
+				if _, isId := c.Args[0].(*ast.Ident); !ok || sel.Sel.Name != "ToBasePath" || !isId {
+					all = false
+					break
+				}
+			}
+			if all {
+				for i, l := range as.Lhs {
+					if id, ok := l.(*ast.Ident); ok {
+						subst[id.Name] = src(as.Rhs[i])
+					}
+				}
+				stmts = stmts[1:]
+				continue
+			}
+		}
 		is, ok := stmts[0].(*ast.IfStmt)
 		if !ok || mentions(is, "baseFS") || mentions(is, "baseFile") || is.Else != nil {
 			break
@@ -251,19 +277,27 @@ func classifyTail(stmts []ast.Stmt, sh shape) shape {
 		sh.guard += src(is.Cond) + " => " + strings.Join(errExprs(is.Body), ",") + ";"
 		stmts = stmts[1:]
 	}
+	fix := func(sh shape) shape {
+		for i, a := range sh.args {
+			if t, ok := subst[a]; ok {
+				sh.args[i] = t
+			}
+		}
+		return sh
+	}
 	// 1. return recv.base.M(args)
 	if len(stmts) == 1 && retOf(stmts[0]) != nil && len(retOf(stmts[0]).Results) == 1 {
 		r := retOf(stmts[0]).Results[0]
 		if m, args, ok := baseCall(r); ok {
 			c := r.(*ast.CallExpr)
 			sh.kind, sh.base, sh.args = "forward", m, argTexts(args, c.Ellipsis.IsValid())
-			return sh
+			return fix(sh)
 		}
 		if c, ok := r.(*ast.CallExpr); ok {
 			if s, ok := c.Fun.(*ast.SelectorExpr); ok {
 				if id, ok := s.X.(*ast.Ident); ok && id.Name == "avfs" {
 					sh.kind, sh.base, sh.args = "composite", s.Sel.Name, argTexts(c.Args[1:], c.Ellipsis.IsValid())
-					return sh
+					return fix(sh)
 				}
 			}
 		}
@@ -274,7 +308,7 @@ func classifyTail(stmts []ast.Stmt, sh shape) shape {
 			if m, args, ok := baseCall(as.Rhs[0]); ok {
 				sh.kind, sh.base, sh.args = "forward", m, argTexts(args, false)
 				sh.wrapRes = src(stmts[1])
-				return sh
+				return fix(sh)
 			}
 		}
 	}
@@ -284,7 +318,7 @@ func classifyTail(stmts []ast.Stmt, sh shape) shape {
 			if m, args, ok := baseCall(as.Rhs[0]); ok {
 				sh.kind, sh.base, sh.args = "openwrap", m, argTexts(args, false)
 				sh.wrapRes = src(stmts[1].(*ast.IfStmt).Body) + " | " + src(stmts[2]) + " | " + src(stmts[3])
-				return sh
+				return fix(sh)
 			}
 		}
 	}
@@ -294,7 +328,7 @@ func classifyTail(stmts []ast.Stmt, sh shape) shape {
 			if m, args, ok := baseCall(as.Rhs[0]); ok {
 				sh.kind, sh.base, sh.args = "openwrap", m, argTexts(args, false)
 				sh.wrapRes = src(stmts[1].(*ast.IfStmt).Body) + " | " + src(stmts[2])
-				return sh
+				return fix(sh)
 			}
 		}
 	}
@@ -305,7 +339,7 @@ func classifyTail(stmts []ast.Stmt, sh shape) shape {
 				if is, ok := stmts[1].(*ast.IfStmt); ok && !mentions(is, "baseFS") && !mentions(is, "baseFile") && is.Else == nil {
 					sh.kind, sh.base, sh.args = "forward", m, argTexts(args, false)
 					sh.wrapRes = "if " + src(is.Cond) + " " + src(is.Body) + " | " + src(stmts[2])
-					return sh
+					return fix(sh)
 				}
 			}
 		}
@@ -317,7 +351,7 @@ func classifyTail(stmts []ast.Stmt, sh shape) shape {
 				if _, ok := stmts[1].(*ast.RangeStmt); ok {
 					sh.kind, sh.base, sh.args = "forward", m, argTexts(args, false)
 					sh.wrapRes = src(stmts[1]) + " | " + src(stmts[2])
-					return sh
+					return fix(sh)
 				}
 			}
 		}
